@@ -141,7 +141,7 @@ def run(ctx):
         if r["event"]["ev"] == "Unguarded":
             ung.setdefault(r["event"]["struct"], []).append(r["event"])
     for st, evs in sorted(ung.items()):
-        evs.sort(key=lambda e: (not e["write"], e["pos"]))
+        evs.sort(key=lambda e: (not e["write"], e["fn"].split(").")[-1][:1].islower(), e["pos"]))
         text = "; ".join("%s in %s (%s)" % (e["field"], e["fn"], e["pos"]) for e in evs[:6])
         E.report(ctx, "Unguarded:%s" % st, "rejected Unguarded: state of %s accessed without %s: %s%s" % (
             st, evs[0]["mu"], text, " ..." if len(evs) > 6 else ""), {"events": evs})
